@@ -136,6 +136,12 @@ def outerOf (op kind : String) : Option Outer :=
 
 def fail (n : Nat) (msg : String) : Except String ASt := .error s!"line {n}: {msg}"
 
+/-- threads (below `bound`) whose pc is `.arc` -/
+def arcThreads (σ : St) (bound : Nat) : List Nat :=
+  (List.range bound).filter fun t => match (σ.th t).pc with | .arc _ => true | _ => false
+
+def isArc (σ : St) (t : Nat) : Bool := match (σ.th t).pc with | .arc _ => true | _ => false
+
 def notePc (a : ASt) (t : Nat) : ASt :=
   let nm := pcName (a.σ.th t).pc
   if a.pcs.contains nm then a else { a with pcs := nm :: a.pcs }
@@ -189,6 +195,8 @@ def acceptLine (a : ASt) (n : Nat) (line : String) : Except String ASt :=
   | "ret" :: t :: rest =>
       let t := t.toNat!
       if a.skip t then .ok { a with skip := upd a.skip t false, inCall := upd a.inCall t false } else
+      -- a thread that is about to release its reference does so now (it was not the last one)
+      let a := if isArc a.σ t then { a with σ := step a.σ (.arc t) } else a
       let x := a.σ.th t
       match x.pc with
       | .ret r =>
@@ -209,6 +217,13 @@ def acceptLine (a : ASt) (n : Nat) (line : String) : Except String ASt :=
       match parseKind k what with
       | none => fail n s!"unknown event kind {k} {what}"
       | some kind =>
+        -- an event by a thread that was about to release its reference: it runs the destructor, so
+        -- every other releasing thread released before it
+        let a := if isArc a.σ t then
+            let others := (arcThreads a.σ 64).filter (· != t)
+            let σ1 := others.foldl (fun σ u => step σ (.arc u)) a.σ
+            { a with σ := step σ1 (.arc t) }
+          else a
         let word := parseWord kind w
         let res := parseVal rv
         let (o, σ') := stepRun a.σ t (res % 2)
